@@ -146,7 +146,7 @@ EXT_SNIPPETS = [
 
 
 def gen_project(rng, idx: int) -> Dict[str, Any]:
-    nroots = rng.choice([1, 1, 2, 2, 2, 3, 3])
+    nroots = [1, 2, 3, rng.choice([1, 2, 3])][idx % 4]
     g = DetGen(rng, nroots)
     units = g.project()
     fmt = rng.choice(DOCFORMATS)
@@ -347,7 +347,11 @@ def oracle(ctx: Ctx, p: Dict[str, Any], results: Dict[Tuple[int, str, bool], Lis
     if any(e not in ok_exit for e in exits):
         # a crashing build is C01's subject; here only "crashes under some seeds / orders and not under others" counts
         ctx.count("build-crashed")
-        if len(exits) > 1:
+        rerun_only = [rs for rs in results.values() if len(rs) == 2 and rs[0]["exit"] in ok_exit and rs[1]["exit"] not in ok_exit]
+        if rerun_only and all(rs[0]["exit"] in ok_exit for rs in results.values()):
+            ctx.fail("reused-dir:exit-status", inp, "the build succeeds into a fresh directory and exits %s when run again into "
+                     "the directory it produced: %s" % (rerun_only[0][1]["exit"], rerun_only[0][1]["stderr_tail"][-200:]))
+        elif len(exits) > 1:
             ctx.fail("exit-status-differs", inp, f"exit codes {exits} for one project: " + allres[0]["stderr_tail"][-200:])
         else:
             ctx.notes.append("project %s: every build exits %s: %s" % (p["id"], exits, allres[0]["stderr_tail"][-160:]))
@@ -355,9 +359,10 @@ def oracle(ctx: Ctx, p: Dict[str, Any], results: Dict[Tuple[int, str, bool], Lis
     if len(exits) > 1:
         ctx.fail("exit-status-differs", inp, f"exit codes {exits} for one project")
     ref = results[(seeds[0], modes[0], False)][0]
-    pkg3 = any(len([f for f in p.get("files", {}) if f.startswith(d + "/") and "/" not in f[len(d) + 1:].rstrip("/")
-                    or (f.startswith(d + "/") and f[len(d) + 1:].count("/") == 1 and f.endswith("__init__.py"))]) >= 3
-               for d in {os.path.dirname(f) for f in p.get("files", {}) if f.endswith("__init__.py")})
+    nfail_before = sum(f["count"] for f in ctx.failures)
+    files = p.get("files", {})
+    pkgdirs = {os.path.dirname(f) for f in files if f.endswith("/__init__.py")}
+    pkg3 = any(len({f[len(d) + 1:].split("/")[0] for f in files if f.startswith(d + "/")}) >= 3 for d in pkgdirs)
     byname: Dict[str, Dict[str, Tuple[str, ...]]] = {}
     for (hs, mode, bt), rs in sorted(results.items()):
         if bt:
@@ -408,9 +413,10 @@ def oracle(ctx: Ctx, p: Dict[str, Any], results: Dict[Tuple[int, str, bool], Lis
     for r in bts:
         ctx.case("%s %d %s buildtime" % (project_digest(p), r["hashseed"], r["mode"]), len(p["roots"]) >= 2 or pkg3, None)
         ctx.count("build:buildtime")
+    already = nfail_before != sum(f["count"] for f in ctx.failures)
     if len(bts) >= 2:
         k = diff_kind(bts[0]["post"], bts[1]["post"])
-        if k:
+        if k and not already:       # otherwise the cause has been named by the SOURCE_DATE_EPOCH matrix above
             n0, n1 = bts[0]["side"].get("projectname"), bts[1]["side"].get("projectname")
             if multi_unnamed and n0 != n1:
                 ctx.fail("hashseed:project-name-guess", inp, "--buildtime builds guess %r and %r" % (n0, n1))
@@ -666,7 +672,7 @@ def os_semantics_stream(ctx: Ctx, st: Streams, scratch: Path) -> None:
 
 # ------------------------------------------------------------------ the site catalogue
 
-STRICT = ("iterate:", "sorted", "escape:")
+STRICT = ("iterate:", "sorted", "escape:arg", "escape:stored")      # escape:return = where a set is produced: informational
 
 
 def strict(site: Dict[str, str]) -> bool:
